@@ -1,7 +1,7 @@
 (* C02 property theorems. This file contains only statements closed by
    [exact lemma] and Print Assumptions. *)
 From V Require Import Common.Base C02.Graph C02.Order C02.SpecESM C02.Wrap C02.Resolve C02.ResolveSpec
-  C02.DataUrl C02.SpecDataUrl C02.OrderProofs C02.OrderEsmProofs C02.ResolveProofs C02.WrapProofs C02.DataUrlProofs C02.ClassifyProofs.
+  C02.DataUrl C02.SpecDataUrl C02.OrderProofs C02.OrderEsmProofs C02.ResolveProofs C02.WrapProofs C02.DataUrlProofs C02.ClassifyProofs C02.Emit C02.EmitProofs.
 From Coq Require Import Permutation.
 
 (* every file of the chunk is emitted at most once ("every module body runs at most once") *)
@@ -123,3 +123,43 @@ Theorem classify_confluent : forall fmt g order1 order2,
   Permutation order1 order2 -> classify fmt g order1 = classify fmt g order2.
 Proof. exact classify_confluent_all. Qed.
 Print Assumptions classify_confluent.
+
+(* entry-point exports, ES-module entry with an export statement: a requirer of the cjs
+   bundle and the global name of the iife bundle see exactly the same names, for every
+   export table and every sequence of export stars evaluated at run time *)
+Theorem exports_cjs_eq_iife : forall names_of aliases dyn,
+  exported_names names_of FCjs true aliases dyn = exported_names names_of (FIife true) true aliases dyn.
+Proof. intros. rewrite cjs_names, iife_names. reflexivity. Qed.
+Print Assumptions exports_cjs_eq_iife.
+
+(* ... and these contain every statically exported name and every name (except "default")
+   that an export star provides at run time (the third argument of __reExport) *)
+Theorem exports_cjs_complete : forall names_of aliases dyn k,
+  (In k aliases \/ exists d, In d dyn /\ In k (names_of d) /\ k <> 0) ->
+  In k (exported_names names_of FCjs true aliases dyn).
+Proof.
+  intros names_of aliases dyn k H. rewrite cjs_names. destruct H as [H|[d [Hd [Hk H0]]]].
+  - apply final_exports_static. exact H.
+  - eapply final_exports_dynamic; eauto.
+Qed.
+Print Assumptions exports_cjs_complete.
+
+(* full statement: "the exported names are the same in the three formats for every entry
+   export table".  False of the faithful model when an export star is evaluated at run time:
+   an ES module cannot declare names that only exist at run time *)
+Theorem exports_three_formats_same_refuted : exists names_of aliases dyn,
+  exported_names names_of FEsm true aliases dyn <> exported_names names_of FCjs true aliases dyn.
+Proof. exists (fun _ => [7]), [1], [0%nat]. vm_compute. discriminate. Qed.
+Print Assumptions exports_three_formats_same_refuted.
+
+(* partial: without run-time export stars the three formats export exactly the table *)
+Theorem exports_three_formats_same_partial : forall names_of aliases,
+  NoDup aliases ->
+  exported_names names_of FEsm true aliases [] = aliases /\
+  exported_names names_of FCjs true aliases [] = aliases /\
+  exported_names names_of (FIife true) true aliases [] = aliases.
+Proof.
+  intros names_of aliases Hn. rewrite esm_names, cjs_names, iife_names. unfold final_exports. cbn [fold_left].
+  rewrite copy_all_nodup by (auto; intros x _ []). auto.
+Qed.
+Print Assumptions exports_three_formats_same_partial.
